@@ -61,8 +61,9 @@ class P:
         a = self.unary()
         while self.peek() == "as":
             self.eat(); ty = self.eat()
-            if ty not in ("usize", "u8"):
+            if ty != "usize":
                 raise Unsupported("cast to " + ty)
+            a = ("asusize", a)
         return a
     def unary(self):
         if self.peek() == "*":
@@ -133,7 +134,8 @@ def to_b(e, c):
         raise Unsupported("name %s in a byte expression" % e[1])
     if k == "index":
         if e[1] != ("name", c.key): raise Unsupported("indexing into something else than the key")
-        return "BExpr.keyAt (%s)" % to_i(e[2], c)
+        if e[2][0] != "asusize": raise Unsupported("key index is not `<u8 position> as usize`")
+        return "BExpr.keyAt (%s)" % to_i(e[2][1], c)
     if k == "xor": return "BExpr.xor (%s) (%s)" % (to_b(e[1], c), to_b(e[2], c))
     if k == "wrapping_add": return "BExpr.wadd (%s) (%s)" % (to_b(e[1], c), to_b(e[2], c))
     if k == "wrapping_sub": return "BExpr.wsub (%s) (%s)" % (to_b(e[1], c), to_b(e[2], c))
@@ -147,14 +149,19 @@ def translate(repo, rel, fname, consts):
     m = re.search(r"fn\s+" + fname + r"\s*\(([^)]*)\)\s*\{", text)
     # the free function (the last `fn encrypt(` / `fn decrypt(` of the file that takes `data: &mut [u8]` first)
     cands = [mm for mm in re.finditer(r"fn\s+" + fname + r"\s*\(([^)]*)\)\s*\{", text) if re.match(r"\s*\w+\s*:\s*&mut\s*\[u8\]", mm.group(1))]
-    if not cands:
-        return ['Stmt.unsupported %s' % lean_str("free function %s(data: &mut [u8], ..) not found in %s" % (fname, rel))]
-    m = cands[-1]
+    if len(cands) != 1:
+        return ['Stmt.unsupported %s' % lean_str("expected exactly one free function %s(data: &mut [u8], ..) in %s, found %d" % (fname, rel, len(cands)))]
+    m = cands[0]
+    if re.search(r"#\[cfg[^\]]*\]\s*(?:pub(?:\([^)]*\))?\s+)?$", text[:m.start()]):
+        return ['Stmt.unsupported %s' % lean_str("the free function %s in %s is behind a cfg attribute" % (fname, rel))]
     params = [p.strip() for p in m.group(1).split(",") if p.strip()]
     names = [p.split(":")[0].strip() for p in params]
     if len(names) != 4:
         return ['Stmt.unsupported %s' % lean_str("unexpected parameter list: " + m.group(1))]
     data, key, index, prev = names
+    types = [re.sub(r"\s+", "", p.split(":", 1)[1]) for p in params]
+    if not (types[0] == "&mut[u8]" and re.fullmatch(r"&?\[u8;[^\]]+\]", types[1]) and types[2] == "&mutu8" and types[3] == "&mutu8"):
+        return ['Stmt.unsupported %s' % lean_str("unexpected parameter types: " + m.group(1))]
     body = gc.fn_body(text[m.start():], fname, rel)
     inner = re.fullmatch(r"\{\s*for\s+(\w+)\s+in\s+(\w+)\s*\{(.*)\}\s*\}", body, re.S)
     if not inner or inner.group(2) != data:
@@ -165,6 +172,8 @@ def translate(repo, rel, fname, consts):
         try:
             mm = re.fullmatch(r"let\s+(\w+)\s*(?::\s*u8\s*)?=\s*(.*)", stmt, re.S)
             if mm:
+                if mm.group(1) in (c.var, c.key, c.index, c.prev) or mm.group(1) in c.locals or mm.group(1) in c.consts:
+                    raise Unsupported("`let %s` shadows a name already in use" % mm.group(1))
                 p = P(tokens(mm.group(2))); e = p.expr()
                 if p.peek() is not None: raise Unsupported("trailing tokens")
                 out.append('Stmt.letv "%s" (%s)' % (mm.group(1), to_b(e, c))); c.locals.add(mm.group(1)); continue
@@ -270,10 +279,11 @@ def formula(repo, rel, fname):
     """returns (BigExpr term, wrapper name)"""
     try:
         text = gc.load(repo, rel)
-        m = re.search(r"fn\s+" + fname + r"\s*\(([^)]*)\)", text)
-        if not m: raise gc.Missing("fn %s not found in %s" % (fname, rel))
+        ms = list(re.finditer(r"fn\s+" + fname + r"\s*\(([^)]*)\)", text))
+        if len(ms) != 1: raise gc.Missing("expected exactly one fn %s in %s, found %d" % (fname, rel, len(ms)))
+        m = ms[0]
         params = set(p.split(":")[0].strip() for p in m.group(1).split(",") if p.strip())
-        body = gc.fn_body(text, fname, rel).strip()[1:-1]
+        body = gc.fn_body(text, fname, rel, unique=True).strip()[1:-1]
     except gc.Missing as ex:
         return "BigExpr.unsupported %s" % lean_str(str(ex)), "?"
     body = re.sub(r"#\[[^\]]*\]", "", body)
@@ -286,8 +296,8 @@ def formula(repo, rel, fname):
             if not mm: raise Unsupported("statement " + re.sub(r"\s+", " ", st)[:80])
             name, rhs = mm.group(1), mm.group(2)
             # a local holding a Sha1Hash wrapper (e.g. `let x = calculate_x(..).as_bigint()`) is opaque: it is a parameter of the formula
-            if re.match(r"\s*calculate_x\s*\(", rhs) and rhs.rstrip().endswith(".as_bigint()"):
-                locs[name] = 'BigExpr.v "%s"' % name; continue
+            if re.sub(r"\s+", "", rhs) == "calculate_x(username,password,salt).as_bigint()" and name == "x":
+                locs[name] = 'BigExpr.v "x"'; continue
             p = PB(rhs); e = p.expr()
             if p.peek() is not None: raise Unsupported("trailing tokens in " + rhs[:60])
             locs[name] = big_term(e, params, locs)
@@ -313,6 +323,7 @@ def scan_nexpr(t, svar):
     if t == "lead": return "NExpr.lead"
     if re.fullmatch(re.escape(svar) + r"\s*\.\s*len\s*\(\s*\)", t): return "NExpr.len"
     if re.fullmatch(r"\d+(?:usize)?", t): return "NExpr.lit %d" % gc.parse_int(t)
+    if t.count("%") > 1: raise Unsupported("more than one % in " + t)
     m = re.fullmatch(r"(.+?)\s*%\s*(.+)", t)
     if m: return "NExpr.mod (%s) (%s)" % (scan_nexpr(m.group(1), svar), scan_nexpr(m.group(2), svar))
     raise Unsupported("expression " + t)
@@ -334,7 +345,7 @@ def strip_rule(repo):
     rel = "src/key.rs"
     bad = lambda why: "⟨0, [SStmt.unsupported %s]⟩" % lean_str(why)
     try:
-        body = gc.fn_body(gc.load(repo, rel), "as_equal_slice", rel)
+        body = gc.fn_body(gc.load(repo, rel), "as_equal_slice", rel, unique=True)
     except gc.Missing as ex:
         return bad(str(ex))
     t = re.sub(r"\s+", " ", body.strip()[1:-1]).strip()
@@ -383,9 +394,9 @@ def rc4_prga(repo):
     bad = lambda why: ('[RStmt.unsupported %s]' % lean_str(why), "RExpr.lit 0")
     try:
         text = gc.load(repo, rel)
-        body = gc.fn_body(text, "pseudo_random_generation", rel)
+        body = gc.fn_body(text, "pseudo_random_generation", rel, unique=True)
         norm = lambda s: re.sub(r"\s+", "", s)
-        if norm(gc.fn_body(text, "s_i", rel)) != "{self.state[self.iasusize]}" or norm(gc.fn_body(text, "s_j", rel)) != "{self.state[self.jasusize]}":
+        if norm(gc.fn_body(text, "s_i", rel, unique=True)) != "{self.state[self.iasusize]}" or norm(gc.fn_body(text, "s_j", rel, unique=True)) != "{self.state[self.jasusize]}":
             return bad("s_i / s_j are not `self.state[self.i as usize]` / `self.state[self.j as usize]`")
     except gc.Missing as ex:
         return bad(str(ex))
@@ -397,22 +408,23 @@ def rc4_prga(repo):
         try:
             m = re.fullmatch(r"self\s*\.\s*(i|j)\s*=\s*(.*)", st, re.S)
             if m:
-                stmts.append("RStmt.set%s (%s)" % (m.group(1).upper(), to_r(parse_full(m.group(2)), locs))); continue
+                stmts.append("RStmt.set%s (%s)" % (m.group(1).upper(), to_r(parse_full(m.group(2)), set()))); continue
             m = re.fullmatch(r"self\s*\.\s*state\s*\.\s*swap\s*\((.*)\)", st, re.S)
             if m:
                 args = [a for a in re.split(r",(?![^(]*\))", m.group(1)) if a.strip()]
                 if len(args) != 2: raise Unsupported("swap arity")
-                stmts.append("RStmt.swap (%s) (%s)" % (to_r(parse_full(args[0]), locs), to_r(parse_full(args[1]), locs))); continue
-            m = re.fullmatch(r"let\s+(\w+)\s*(?::\s*\w+\s*)?=\s*(.*)", st, re.S)
+                stmts.append("RStmt.swap (%s) (%s)" % (to_r(parse_full(args[0]), set()), to_r(parse_full(args[1]), set()))); continue
+            m = re.fullmatch(r"let\s+(\w+)\s*:\s*usize\s*=\s*(.*)\.into\(\)", st, re.S)
             if m:
-                stmts.append('RStmt.letv "%s" (%s)' % (m.group(1), to_r(parse_full(m.group(2)), locs))); locs.add(m.group(1)); continue
+                # the value is computed in u8 (wrapping) and only then widened; it may be used as the table index and nowhere else
+                stmts.append('RStmt.letv "%s" (%s)' % (m.group(1), to_r(parse_full(m.group(2)), set()))); locs.add(m.group(1)); continue
             raise Unsupported("statement form")
         except Unsupported as ex:
             stmts.append("RStmt.unsupported %s" % lean_str("%s  [%s]" % (re.sub(r"\s+", " ", st), ex)))
     try:
-        m = re.fullmatch(r"self\s*\.\s*state\s*\[(.*)\]", final, re.S)
-        if not m: raise Unsupported("result is not self.state[..]")
-        res = to_r(parse_full(re.sub(r"\bas\s+usize\b", "", m.group(1))), locs)
+        m = re.fullmatch(r"self\s*\.\s*state\s*\[\s*(\w+)\s*\]", final, re.S)
+        if not m or m.group(1) not in locs: raise Unsupported("result is not self.state[<usize local>]")
+        res = 'RExpr.loc "%s"' % m.group(1)
     except Unsupported as ex:
         stmts.append("RStmt.unsupported %s" % lean_str("%s  [%s]" % (final, ex))); res = "RExpr.lit 0"
     return "[" + ", ".join(stmts) + "]", res
@@ -436,41 +448,50 @@ def impl_fn(text, impl_header, fname, what):
                 blk = text[i:j + 1]; break
     else:
         raise gc.Missing("unbalanced impl block")
-    mm = re.search(r"fn\s+" + fname + r"\s*\(([^)]*)\)", blk)
-    if not mm:
-        raise gc.Missing("fn %s not found in %s" % (fname, what))
-    return mm.group(1), gc.fn_body(blk, fname, what)
+    mms = list(re.finditer(r"fn\s+" + fname + r"\s*\(([^)]*)\)", blk))
+    if len(mms) != 1:
+        raise gc.Missing("expected exactly one fn %s in %s, found %d" % (fname, what, len(mms)))
+    mm = mms[0]
+    if re.search(r"#\[cfg[^\]]*\]\s*(?:#\[[^\]]*\]\s*)*(?:pub(?:\([^)]*\))?\s+)?(?:const\s+)?$", blk[:mm.start()]):
+        raise gc.Missing("fn %s in %s is behind a cfg attribute" % (fname, what))
+    return mm.group(1), gc.fn_body(blk, fname, what, unique=True)
 
-def builder_elements(block, widths):
-    """the elements of `let mut header = [..]` in a block, as LByte terms"""
-    binds = {}
-    for m in re.finditer(r"let\s+(\w+)\s*=\s*(\w+)\s*\.\s*to_(be|le)_bytes\s*\(\s*\)\s*;", block):
-        if m.group(2) not in widths:
-            return ["LByte.unsupported %s" % lean_str("to_%s_bytes of %s" % (m.group(3), m.group(2)))]
-        binds[m.group(1)] = (m.group(2), m.group(3), widths[m.group(2)])
-    locs = {}
-    for m in re.finditer(r"let\s+(\w+)\s*=\s*set_large_header\s*\(\s*(\w+)\s*\[\s*(\d+)\s*\]\s*\)\s*;", block):
-        locs[m.group(1)] = (m.group(2), int(m.group(3)))
-    m = re.search(r"let\s+(?:mut\s+)?header\s*(?::[^=]*)?=\s*\[([^\]]*(?:\[[^\]]*\][^\]]*)*)\]\s*;", block)
-    if not m:
-        return ["LByte.unsupported %s" % lean_str("no `let mut header = [..]` in: " + re.sub(r"\s+", " ", block)[:160])]
+def builder_elements(block, widths, tail):
+    """the elements of `let mut header = [..]` as LByte terms — but only when the WHOLE block is the frame
+         let size = size.to_be_bytes(); let opcode = opcode.to_le_bytes(); [let m = set_large_header(size[k]);]
+         let mut header = [..]; self.encrypt(&mut header); <tail>
+       (whitespace removed; `tail` is the regex of what the function does with the encrypted header)"""
+    flat = re.sub(r"\s+", "", block.strip())
+    if flat.startswith("{") and flat.endswith("}"):
+        flat = flat[1:-1]
+    m = re.fullmatch(r"letsize=size\.to_(be|le)_bytes\(\);letopcode=opcode\.to_(be|le)_bytes\(\);"
+                     r"(?:let(\w+)=set_large_header\(size\[(\d+)\]\);)?"
+                     r"letmutheader=\[([^;]*)\];self\.encrypt\(&mutheader\);" + tail, flat)
+    if not m or "size" not in widths or "opcode" not in widths:
+        return ["LByte.unsupported %s" % lean_str("block is not the builder frame: " + flat[:200])]
+    binds = {"size": ("size", m.group(1), widths["size"]), "opcode": ("opcode", m.group(2), widths["opcode"])}
+    locs = {m.group(3): ("size", int(m.group(4)))} if m.group(3) else {}
     def elem(name, idx):
         if name not in binds:
             return "LByte.unsupported %s" % lean_str("%s[%d]" % (name, idx))
         f, order, w = binds[name]
-        fld = {"size": "Field.size", "opcode": "Field.opcode"}.get(f)
-        if fld is None or idx >= w:
+        if idx >= w:
             return "LByte.unsupported %s" % lean_str("%s[%d]" % (name, idx))
-        return "LByte.%s %s %d %d" % (order, fld, w, idx)
+        return "LByte.%s Field.%s %d %d" % (order, f, w, idx)
     out = []
-    for e in [x.strip() for x in re.split(r",(?![^\[]*\])", m.group(1)) if x.strip()]:
-        mm = re.fullmatch(r"(\w+)\s*\[\s*(\d+)\s*\]", e)
+    for e in [x for x in m.group(5).split(",") if x]:
+        mm = re.fullmatch(r"(\w+)\[(\d+)\]", e)
         if mm:
             out.append(elem(mm.group(1), int(mm.group(2))))
         elif e in locs:
             out.append("LByte.setLarge (%s)" % elem(*locs[e]))
         else:
             out.append("LByte.unsupported %s" % lean_str(e))
+    # the copy-back of the Wrath server (`self.server_header[i] = header[i];` for i = 0..n-1, in order) is part of the tail regex; check n
+    n = len(out)
+    cb = re.findall(r"self\.server_header\[(\d+)\]=header\[(\d+)\];", flat)
+    if cb and [(str(k), str(k)) for k in range(n)] != cb:
+        return ["LByte.unsupported %s" % lean_str("copy-back into server_header is not index by index: " + str(cb))]
     return out
 
 def param_widths(params):
@@ -486,7 +507,7 @@ def builder(repo, rel, impl_header, fname):
         params, body = impl_fn(gc.load(repo, rel), impl_header, fname, rel)
     except gc.Missing as ex:
         return ["LByte.unsupported %s" % lean_str(str(ex))]
-    return builder_elements(body, param_widths(params))
+    return builder_elements(body, param_widths(params), r"header")
 
 def branching(repo, rel, impl_header, fname, consts):
     try:
@@ -494,9 +515,10 @@ def branching(repo, rel, impl_header, fname, consts):
     except gc.Missing as ex:
         return 0, ["LByte.unsupported %s" % lean_str(str(ex))], []
     w = param_widths(params)
-    m = re.search(r"if\s+size\s*>\s*([A-Za-z0-9_]+)\s*\{", body)
-    if not m:
-        return 0, ["LByte.unsupported %s" % lean_str("no `if size > X {` in " + fname)], []
+    flat = re.sub(r"\s+", "", body.strip())
+    m = re.fullmatch(r"\{ifsize>([A-Za-z0-9_]+)\{(.*)\}else\{(.*)\}\}", flat)
+    if not m or "{" in m.group(2) or "{" in m.group(3):
+        return 0, ["LByte.unsupported %s" % lean_str("body is not exactly `if size > X { .. } else { .. }`")], []
     tok = m.group(1)
     if re.fullmatch(r"0x[0-9A-Fa-f_]+|\d[\d_]*", tok):
         thr = gc.parse_int(tok)
@@ -505,22 +527,10 @@ def branching(repo, rel, impl_header, fname, consts):
         if not mm:
             return 0, ["LByte.unsupported %s" % lean_str("threshold " + tok)], []
         thr = gc.parse_int(mm.group(1))
-    # the two blocks
-    def block_at(i):
-        depth = 0
-        for j in range(i, len(body)):
-            if body[j] == "{": depth += 1
-            elif body[j] == "}":
-                depth -= 1
-                if depth == 0:
-                    return body[i:j + 1], j + 1
-        raise gc.Missing("unbalanced")
-    b1, end = block_at(m.end() - 1)
-    m2 = re.match(r"\s*else\s*\{", body[end:])
-    if not m2:
-        return thr, builder_elements(b1, w), ["LByte.unsupported %s" % lean_str("no else branch")]
-    b2, _ = block_at(end + m2.end() - 1)
-    return thr, builder_elements(b1, w), builder_elements(b2, w)
+    copy = r"(?:self\.server_header\[\d+\]=header\[\d+\];)+"
+    large = builder_elements(m.group(2), w, copy + r"&self\.server_header")
+    small = builder_elements(m.group(3), w, copy + r"&self\.server_header\[0\.\.SERVER_HEADER_MINIMUM_LENGTHasusize\]")
+    return thr, large, small
 
 def parser(repo, rel, impl_header, fname, consts):
     bad = 'ParseSpec.mk 0 Order.be [] Order.le [] false'
@@ -537,28 +547,32 @@ def parser(repo, rel, impl_header, fname, consts):
         n = c.eval(m.group(2))
     except gc.Missing:
         return bad
-    locs = {}
-    for mm in re.finditer(r"let\s+(\w+)\s*=\s*clear_large_header\s*\(\s*" + arr + r"\s*\[\s*(\d+)\s*\]\s*\)\s*;", body):
-        locs[mm.group(1)] = "PByte.loc (PByte.clearLarge (PByte.at %d))" % int(mm.group(2))
-    def elems(txt):
+    flat = re.sub(r"\s+", "", body.strip())
+    fm = re.fullmatch(r"\{(?:let(\w+)=clear_large_header\(" + arr + r"\[(\d+)\]\);)?"
+                      r"letsize(?::u(?:16|32))?=u(16|32)::from_(be|le)_bytes\(\[([^;]*)\]\);"
+                      r"letopcode(?::u(?:16|32))?=u(16|32)::from_(be|le)_bytes\(\[([^;]*)\]\);"
+                      r"Self\{(size|size:sizeasu32),opcode,?\}\}", flat)
+    if not fm:
+        return bad
+    locs = {fm.group(1): "PByte.loc (PByte.clearLarge (PByte.at %d))" % int(fm.group(2))} if fm.group(1) else {}
+    def elems(txt, width):
         out = []
-        for e in [x.strip() for x in re.split(r",(?![^\[]*\])", txt) if x.strip()]:
-            mm = re.fullmatch(arr + r"\s*\[\s*(\d+)\s*\]", e)
-            if mm: out.append("PByte.at %d" % int(mm.group(1)))
+        for e in [x for x in txt.split(",") if x]:
+            mm = re.fullmatch(arr + r"\[(\d+)\]", e)
+            if mm and int(mm.group(1)) < n: out.append("PByte.at %d" % int(mm.group(1)))
             elif e == "0": out.append("PByte.zero")
             elif e in locs: out.append(locs[e])
             else: out.append("PByte.unsupported %s" % lean_str(e))
+        if len(out) != width:
+            out.append("PByte.unsupported %s" % lean_str("%d bytes given to a %d-byte integer" % (len(out), width)))
         return out
-    got = {}
-    for mm in re.finditer(r"let\s+(size|opcode)\s*(?::\s*\w+\s*)?=\s*u(?:16|32)::from_(be|le)_bytes\s*\(\s*\[([^\]]*(?:\[[^\]]*\][^\]]*)*)\]\s*\)\s*;", body):
-        got[mm.group(1)] = (mm.group(2), elems(mm.group(3)))
-    # the struct literal must use exactly these two locals (possibly widened with `as u32`)
-    lit = re.search(r"Self\s*\{([^}]*)\}", body)
-    okstruct = bool(lit) and re.sub(r"\s+", "", lit.group(1)).rstrip(",") in ("size,opcode", "size:sizeasu32,opcode", "size:size,opcode:opcode")
-    if set(got) != {"size", "opcode"} or not okstruct:
+    sz = elems(fm.group(5), int(fm.group(3)) // 8)
+    op = elems(fm.group(8), int(fm.group(6)) // 8)
+    # `size as u32` only widens a u16
+    if fm.group(9) != "size" and fm.group(3) != "16":
         return bad
-    ok = "true" if not any("unsupported" in x for k in got for x in got[k][1]) else "false"
-    return "ParseSpec.mk %d Order.%s [%s] Order.%s [%s] %s" % (n, got["size"][0], ", ".join(got["size"][1]), got["opcode"][0], ", ".join(got["opcode"][1]), ok)
+    ok = "true" if not any("unsupported" in x for x in sz + op) else "false"
+    return "ParseSpec.mk %d Order.%s [%s] Order.%s [%s] %s" % (n, fm.group(4), ", ".join(sz), fm.group(7), ", ".join(op), ok)
 
 def main():
     repo, outp = sys.argv[1], sys.argv[2]
